@@ -73,6 +73,8 @@ type FuncVC struct {
 	ssaInstrs    int
 	errs         []string
 	topFrame     *Frame
+	forceWrap    bool
+	outDir       string
 	specInfo     map[string]*specFnInfo
 	specOrder    []string
 	axioms       []string
@@ -490,4 +492,11 @@ func exprText(v ssa.Value) string {
 // srcText returns the source text covered by an AST position range if known.
 func (f *Frame) srcName(instr ssa.Instruction, fallback string) string {
 	return fallback
+}
+
+func (vc *FuncVC) workDir() string {
+	if vc.outDir != "" {
+		return vc.outDir
+	}
+	return "/verif/out/smt/_misc"
 }
